@@ -11,7 +11,11 @@ EXPLANATION = (
     "callnext); a dependent rank above a tied rank falls through to 'No method' (F-depnext); ranks inherit the level unfaithfulness F-lvl. The "
     "rewritten call site / f.next key construction is C08/C09 (R mode)."
 )
-ASSUMPTIONS = ["code objects identify methods (one code object per adapted method: recode tail contract, C08)"]
+ASSUMPTIONS = [
+    'MultiTypeMap.mro (mode U): each handler occurs at most once in a per-entry table (register stores it under one type per entry)',
+    'MultiTypeMap.mro (mode U): signatures have vararg=False (Signature.extract rejects *args; register creates the -1 table only for vararg signatures)',
+    'MultiTypeMap.mro (mode U): the key is non-empty (__missing__ answers () before calling resolve)',
+    "code objects identify methods (one code object per adapted method: recode tail contract, C08)"]
 TRUSTED = ["dict protocol", "contract of resolve at its call site"]
 BOUNDS = {"resolve": "<=3 ranks, <=2 methods per rank"}
 
@@ -19,7 +23,7 @@ BOUNDS = {"resolve": "<=3 ranks, <=2 methods per rank"}
 def tasks(tier):
     from contracts import recode_c
 
-    return [dict(name="recode.tail", build=recode_c.t_recode_tail, mode="U")] + _tm.mtm_missing_tasks(("plain", "coded", "coded_nullary")) + _tm.resolve_tasks(tier) + _tm.e2e_tasks(["complete"], "quick")[:3]
+    return [dict(name="recode.tail", build=recode_c.t_recode_tail, mode="U")] + _tm.mro_unbounded_tasks()[:2] + _tm.mtm_missing_tasks(("plain", "coded", "coded_nullary")) + _tm.resolve_tasks(tier) + [t for t in _tm.e2e_tasks(["complete"], "quick") if t["name"].endswith((",p]", "N=2,p/p]", "N=2,p/k]"))]
 
 
 def conformance(tier):
